@@ -87,6 +87,8 @@ pub enum Ty {
     Never,
     /// `FxHashMap<K, V>` / `HashMap<K, V>`: an association list in insertion order
     Map(Box<Ty>, Box<Ty>),
+    /// an `R: Read`: the chunks still to be delivered
+    Reader,
     /// a type parameter of a generic function
     Param(String),
     /// a closure / function parameter `F: Fn(A) -> R`
@@ -279,6 +281,7 @@ pub fn lean_ty(t: &Ty) -> String {
         Ty::Error => "Err".into(),
         Ty::Never => "Unit".into(),
         Ty::Map(k, v) => format!("(List ({} × {}))", lean_ty(k), lean_ty(v)),
+        Ty::Reader => "(List (List Nat))".into(),
         Ty::Param(n) => n.clone(),
         Ty::Fun(a, r) => format!("({} → {})", a.iter().map(lean_ty).collect::<Vec<_>>().join(" → "), lean_ty(r)),
     }
